@@ -124,6 +124,21 @@ def get_symbols(block: Block) -> set[str]:
     return symbols
 
 
+def get_nested_symbols(block: Block) -> set[str]:
+    """
+    Returns a set of all symbols defined/used in the regions nested in the operations
+    of a basic block.
+    """
+    symbols: set[str] = set()
+    for op in block.ops:
+        for region in op.regions:
+            for nested_op in region.walk():
+                symbol = get_symbol(nested_op)
+                if symbol is not None:
+                    symbols.add(symbol)
+    return symbols
+
+
 def lower_positional_bound(
     writes: list[symref.UpdateOp], read: symref.FetchOp
 ) -> Operation | None:
@@ -246,6 +261,10 @@ class Desymrefier:
     def prune_definitions(self, block: Block):
         """Removes all symbol definitions and their uses from the block."""
 
+        # Reads and writes in nested regions are not ordered with respect to the
+        # ones in this block, and can only be removed by promoting the operation.
+        nested_symbols = get_nested_symbols(block)
+
         # Find all symbol definitions in this block. If no definitions
         # found, terminate.
         while (
@@ -259,6 +278,11 @@ class Desymrefier:
             # Otherwise, some definitions are still alive.
             for definition in definitions:
                 symbol = get_symbol(definition)
+                if symbol in nested_symbols:
+                    raise FrontendProgramException(
+                        f"Symbol '{symbol}' is used in a nested region, which is "
+                        "not supported."
+                    )
 
                 # Find all reads and writes for this symbol.
                 reads = [
@@ -306,7 +330,8 @@ class Desymrefier:
 
     def prune_uses_without_definitions(self, block: Block):
         """Removes all possible symbol uses in a single block."""
-        prepared_symbols: set[str] = set()
+        # Symbols used in nested regions are left as they are, see prune_definitions.
+        prepared_symbols: set[str] = get_nested_symbols(block)
 
         while True:
             self._prune_unused_reads(block)
